@@ -8,6 +8,15 @@ FW_INC = os.path.join(vf.REPO, "src/target/firmware/include")
 TOP_INC = os.path.join(vf.REPO, "include")
 
 
+# objects of the code under test are compiled with these flags so that their console output (which may change with any
+# reworded or added diagnostic) never mixes with the protocol answers a harness prints on stdout; link console_sink(run)
+CONSOLE_FLAGS = ["-Dputs=vf_console_puts", "-Dprintf=vf_console_printf", "-Dputchar=vf_console_putchar"]
+
+
+def console_sink(run):
+    return obj(run, os.path.join(vf.ROOT, "harness/c/console_sink.c"), "console_sink")
+
+
 def obj(run, src, name, flags=(), includes=(), idirafter=(), compiler="gcc"):
     out = os.path.join(run.scratch, name + ".o")
     cmd = [compiler, "-O1", "-g", "-w", "-c"] + list(flags)
